@@ -653,9 +653,9 @@ impl Prop for C08 {
             Tier::Thorough => {
                 let n5 = small(5).len() as u64;
                 v.push(Space { name: "pairs5", size: n5 * n5, exhaustive: true, chunk: 65536, case_timeout_s: 5.0, what: "all ordered pairs of layouts with <= 5 nodes" });
-                v.push(Space { name: "edit", size: 1_500_000, exhaustive: false, chunk: 20000, case_timeout_s: 5.0, what: "random layouts (<= 40 nodes, leaf sizes <= 64) paired with an edit-script derivative" });
-                v.push(Space { name: "indep", size: 500_000, exhaustive: false, chunk: 20000, case_timeout_s: 5.0, what: "independent random layout pairs over a small leaf alphabet" });
-                v.push(Space { name: "distinct", size: 1_000_000, exhaustive: false, chunk: 20000, case_timeout_s: 5.0, what: "layouts with pairwise distinct leaf shapes, new = old after removals/additions of subtrees" });
+                v.push(Space { name: "edit", size: 7_500_000, exhaustive: false, chunk: 20000, case_timeout_s: 5.0, what: "random layouts (<= 40 nodes, leaf sizes <= 64) paired with an edit-script derivative" });
+                v.push(Space { name: "indep", size: 2_500_000, exhaustive: false, chunk: 20000, case_timeout_s: 5.0, what: "independent random layout pairs over a small leaf alphabet" });
+                v.push(Space { name: "distinct", size: 5_000_000, exhaustive: false, chunk: 20000, case_timeout_s: 5.0, what: "layouts with pairwise distinct leaf shapes, new = old after removals/additions of subtrees" });
             }
         }
         v
